@@ -590,7 +590,7 @@ func (r *rig) predict(st *step) (outcome, func(got outcome)) {
 			return outcome{code: "exist"}, nil
 		}
 		return outcome{code: "ok"}, func(outcome) {
-			r.put(d, st.Name, &mnode{kind: kindSymlink, target: st.Target})
+			r.put(d, st.Name, &mnode{kind: kindSymlink, target: normTarget(st.Target)})
 			r.noteMod(st)
 		}
 	case "remove":
@@ -602,19 +602,23 @@ func (r *rig) predict(st *step) (outcome, func(got outcome)) {
 		case c == nil:
 			return outcome{code: "noent"}, nil
 		case c.kind == kindDir:
+			// VirtualRemove is documented to behave "like rmdir(),
+			// unlink() or a mixture of the two", Directory.Remove as
+			// "the equivalent of os.Remove()": the error codes those
+			// calls document are accepted, nothing narrower.
 			if !removeDirectory {
-				return outcome{code: "perm"}, nil
+				return outcome{code: "oneof:perm|isdir"}, nil // unlink(2) of a directory
 			}
 			if r.contentsBad(c) {
 				return io, nil
 			}
 			r.touch(c)
 			if len(c.children) > 0 {
-				return outcome{code: "notempty"}, nil
+				return outcome{code: "oneof:notempty|exist"}, nil // rmdir(2) of a non-empty directory
 			}
 		default:
 			if !removeLeaf {
-				return outcome{code: "notdir"}, nil
+				return outcome{code: "notdir"}, nil // rmdir(2) of something else
 			}
 		}
 		return outcome{code: "ok"}, func(outcome) {
@@ -647,8 +651,13 @@ func (r *rig) predict(st *step) (outcome, func(got outcome)) {
 			r.put(d2, st.Name2, c)
 			r.noteMod(st)
 		}
+		// VirtualRename documents no error codes and C17 does not
+		// depend on them: a rename that cannot be done (no such source,
+		// a non-directory over a directory or the reverse, a non-empty
+		// target directory) has to fail with some error other than an
+		// I/O error and change nothing.
 		if c == nil {
-			return outcome{code: "noent"}, nil
+			return outcome{code: "error", detail: "no such source"}, nil
 		}
 		if n == nil {
 			return outcome{code: "ok", detail: "old_gone"}, move
@@ -658,19 +667,19 @@ func (r *rig) predict(st *step) (outcome, func(got outcome)) {
 		}
 		if n.kind == kindDir {
 			if c.kind != kindDir {
-				return outcome{code: "isdir"}, nil
+				return outcome{code: "error", detail: "non-directory over a directory"}, nil
 			}
 			if r.contentsBad(n) {
 				return io, nil
 			}
 			r.touch(n)
 			if len(n.children) > 0 {
-				return outcome{code: "notempty"}, nil
+				return outcome{code: "error", detail: "over a non-empty directory"}, nil
 			}
 			return outcome{code: "ok", detail: "old_gone"}, move
 		}
 		if c.kind == kindDir {
-			return outcome{code: "notdir"}, nil
+			return outcome{code: "error", detail: "directory over a non-directory"}, nil
 		}
 		ic, okc := c.immutableIdentity()
 		in, okn := n.immutableIdentity()
@@ -714,9 +723,19 @@ func (r *rig) predict(st *step) (outcome, func(got outcome)) {
 }
 
 func matches(got, want outcome) bool {
+	if alternatives, ok := strings.CutPrefix(want.code, "oneof:"); ok {
+		for _, a := range strings.Split(alternatives, "|") {
+			if got.code == a {
+				return true
+			}
+		}
+		return false
+	}
 	switch want.code {
-	case "refused":
-		return got.code != "ok" && got.code != "io" && !strings.HasPrefix(got.code, "nav-") && !strings.HasPrefix(got.code, "status(")
+	case "refused", "error":
+		// Some error that is an answer (not an I/O error, not a
+		// failure to get there, not an unknown status, not a panic).
+		return got.code != "ok" && got.code != "io" && got.code != "panic" && !strings.HasPrefix(got.code, "nav-") && !strings.HasPrefix(got.code, "status(")
 	case "refused-or-ok":
 		return got.code != "io" && !strings.HasPrefix(got.code, "nav-")
 	case "ok-or-io":
